@@ -20,7 +20,13 @@ pub fn export(db: &DbIndex) -> Index {
 fn export_modules(db: &DbIndex) -> Vec<Module> {
     let type_index = db.get_type_index();
     let module_index = db.get_module_index();
-    let modules = module_index.get_module_infos();
+    let mut modules = module_index.get_module_infos();
+    // the index hands modules out in hash-map order: sort for a reproducible export
+    modules.sort_by(|a, b| {
+        a.full_module_name
+            .cmp(&b.full_module_name)
+            .then(a.file_id.cmp(&b.file_id))
+    });
     let vfs = db.get_vfs();
 
     modules
@@ -67,7 +73,9 @@ fn export_modules(db: &DbIndex) -> Vec<Module> {
 fn export_types(db: &DbIndex) -> Vec<Type> {
     let type_index = db.get_type_index();
     let module_index = db.get_module_index();
-    let types = type_index.get_all_types();
+    let mut types = type_index.get_all_types();
+    // the index hands types out in hash-map order: sort for a reproducible export
+    types.sort_by(|a, b| a.get_full_name().cmp(b.get_full_name()));
 
     types
         .into_iter()
@@ -96,7 +104,16 @@ fn export_globals(db: &DbIndex) -> Vec<Global> {
     let module_index = db.get_module_index();
     let type_index = db.get_type_index();
     let vfs = db.get_vfs();
-    let globals = global_index.get_all_global_decl_ids();
+    let mut globals = global_index.get_all_global_decl_ids();
+    // the index hands globals out in hash-map order: sort for a reproducible export
+    globals.sort_by(|a, b| {
+        let name_a = db.get_decl_index().get_decl(a).map(|decl| decl.get_name());
+        let name_b = db.get_decl_index().get_decl(b).map(|decl| decl.get_name());
+        name_a
+            .cmp(&name_b)
+            .then(a.file_id.cmp(&b.file_id))
+            .then(a.position.cmp(&b.position))
+    });
 
     globals
         .into_iter()
